@@ -1,5 +1,6 @@
 #!/bin/sh
 # Demonstrations that the bindings are real (DESIGN 3.4).  Uses scratch worktrees, never touches /repo.
+export VERIF_EVIDENCE_DIR=/tmp/vt/evidence_scratch; mkdir -p $VERIF_EVIDENCE_DIR   # never overwrite /verif/evidence from a scratch tree
 cd /verif
 echo "== 1. a recorded suite event with one corrupted field is rejected by TraceSuite.tla"
 /venv/bin/python - <<'PY'
